@@ -1273,20 +1273,23 @@ def vmdk_jobs(J, H, props, tier, kinds, k=1):
     """kinds: subset of {'hdr','desc1','desc2','footer','descnum'}"""
     P = {'props': sorted(props)}
     jobs = []
+    quick = tier == 'quick'
     names = list(DESC_POS)
     if 'hdr' in kinds:
-        jobs.append(J(H['vmdk'], dict(P, cuts=k, hdr=['version', 'sectors',
-                                                      'desc_sec']),
-                      split_depth=12))
+        jobs.append(J(H['vmdk'], dict(
+            P, cuts=k, hdr=['version', 'sectors'] if quick else
+            ['version', 'sectors', 'desc_sec']), split_depth=12))
         jobs.append(J(H['vmdk'], dict(P, cuts=k, hdr=['gd'], footer=['type'],
                                       nmax=4096), split_depth=10))
     if 'desc1' in kinds:
-        for n in names:
+        pick = names if not quick or k == 0 else \
+            ['ctype-quote', 'extent-access', 'extent-name', 'first-pad']
+        for n in pick:
             jobs.append(J(H['vmdk'], dict(P, cuts=k, desc_sym=[n],
                                           nmax=2048)))
     if 'desc2' in kinds:
         pairs = [(a, b) for i, a in enumerate(names) for b in names[i + 1:]]
-        if tier == 'quick':
+        if quick:
             pairs = [pr for j, pr in enumerate(pairs) if j % 11 == 0]
         for a, b in pairs:
             jobs.append(J(H['vmdk'], dict(P, cuts=0, desc_sym=[a, b],
@@ -1295,6 +1298,8 @@ def vmdk_jobs(J, H, props, tier, kinds, k=1):
     if 'footer' in kinds:
         sets = [['type', 'size', 'pad'], ['ver', 'num', 'gd', 'sig'],
                 ['eos']]
+        if quick and k > 0:
+            sets = [['type', 'ver', 'eos']]
         for fs in sets:
             jobs.append(J(H['vmdk'], dict(P, cuts=k, footer=fs, nmax=8192),
                           split_depth=12))
